@@ -126,8 +126,12 @@ static void run_pure(void)
                     }
                     uint64_t dig[PRES_MAX]; for (int i = 0; i < cnt; i++) dig[i] = mon_hash(pr.ptr[i], s.flen, 7);
                     int req = c.be == EC_BACKEND_FLAT_XOR_HD || c.be == EC_BACKEND_LIBERASURECODE_RS_VAND || code_firstk_invertible(&cd, present);
+                    /* the array of fragment pointers is an input too: on a read-only mapping that ends at a guard page */
+                    char **plist = g_alloc(sizeof(char *) * (size_t)(cnt ? cnt : 1), G_END);
+                    memcpy(plist, pr.ptr, sizeof(char *) * (size_t)cnt); g_ro(plist);
                     char *out = NULL; uint64_t ol = 0;
-                    int drc = liberasurecode_decode(desc, pr.ptr, cnt, s.flen, e & 1, &out, &ol);
+                    static const int fvs[] = { 0, 1, 0, -1, 0, 2 };
+                    int drc = liberasurecode_decode(desc, plist, cnt, s.flen, fvs[e % 6], &out, &ol);
                     mon_count("evaluations", 1); mon_count("guarded_decodes", 1);
                     if (drc == 0) { if (ol != len || (len && memcmp(out, src, len))) mon_viol("C15", "decode-wrong-bytes", "decode on guarded inputs (%s) returned wrong bytes", place_name[place]); liberasurecode_decode_cleanup(desc, out); }
                     else if (req) mon_viol("C15", "decode-failed", "decode on guarded inputs (%s) returned %d", place_name[place], drc);
@@ -135,7 +139,7 @@ static void run_pure(void)
                     for (int q = 0; q < 2; q++) {
                         int dest = q == 0 ? (sz ? perm[0] : 0) : idx[0];
                         uint8_t *o = malloc(s.flen);
-                        int rrc = liberasurecode_reconstruct_fragment(desc, pr.ptr, cnt, s.flen, dest, (char *)o);
+                        int rrc = liberasurecode_reconstruct_fragment(desc, plist, cnt, s.flen, dest, (char *)o);
                         mon_count("evaluations", 1); mon_count("guarded_reconstructs", 1);
                         const uint8_t *want = s.frag[dest];
                         for (int i = 0; i < cnt; i++) if (idx[i] == dest) { want = (const uint8_t *)pr.ptr[i]; break; }   /* a supplied destination comes back as supplied */
@@ -150,9 +154,11 @@ static void run_pure(void)
                         if (is_invalid_fragment(desc, pr.ptr[i])) mon_viol("C15", "validation-failed", "is_invalid_fragment rejects a pristine guarded fragment");
                         mon_count("evaluations", 2); mon_count("guarded_validations", 2);
                     }
-                    if (cnt) { if (liberasurecode_verify_stripe_metadata(desc, pr.ptr, cnt) != 0) mon_viol("C15", "stripe-check-failed", "verify_stripe_metadata failed on pristine guarded fragments"); mon_count("evaluations", 1); }
+                    if (cnt) { if (liberasurecode_verify_stripe_metadata(desc, plist, cnt) != 0) mon_viol("C15", "stripe-check-failed", "verify_stripe_metadata failed on pristine guarded fragments"); mon_count("evaluations", 1); }
                     /* inputs unchanged (they are read-only, so a write would already have faulted) */
                     for (int i = 0; i < cnt; i++) if (mon_hash(pr.ptr[i], s.flen, 7) != dig[i]) { mon_viol("C15", "input-fragment-modified", "fragment %d changed", idx[i]); break; }
+                    if (memcmp(plist, pr.ptr, sizeof(char *) * (size_t)cnt)) mon_viol("C15", "input-list-modified", "the caller's array of fragment pointers changed");
+                    g_free(plist);
                     pres_free(&pr);
                     /* fragments_needed with read-only index lists ending at a guard page */
                     if (sz) {
